@@ -3585,6 +3585,13 @@ impl SctpInner {
 
             for record in sent.values_mut() {
                 if record.needs_retransmit {
+                    // Marked by T3 / the tail-loss probe and gap-acked since: the peer has
+                    // it, the payload is gone. Nothing to send (it used to go out as an
+                    // empty chunk - a datagram without any chunk when it was the only one).
+                    if record.acked {
+                        record.needs_retransmit = false;
+                        continue;
+                    }
                     if recovery_tx {
                         self.fast_recovery_transmit.store(false, Ordering::Relaxed);
                         recovery_tx = false;
